@@ -62,6 +62,35 @@ def run():
         d = [float(np.max(np.abs(a - b))) for a, b in zip(r[1:4], ref_h[1:4])]
         if d[0] > 1e-8 or max(d[1:]) > 1e-6:
             return n, dict(what, observed='differs from klu: power flow %.2e, trajectory end x %.2e, y %.2e' % tuple(d))
+    # two systems alive in one process, advanced in turns: nothing a solver object keeps between calls may leak from one to the other
+    for lib in ('spsolve', 'klu', 'umfpack'):
+        n += 1
+        opts = ['%s.sparselib=%s' % (r_, lib) for r_ in ('PFlow', 'TDS', 'EIG')]
+        with contextlib.redirect_stdout(io.StringIO()), contextlib.redirect_stderr(io.StringIO()):
+            alone = andes.load(case, default_config=True, no_output=True, config_option=opts)
+            alone.PFlow.run()
+            for tf_ in (0.7, 1.3, 2.6):
+                alone.TDS.config.tf = tf_
+                ok0 = alone.TDS.run()
+            a = andes.load(case, default_config=True, no_output=True, config_option=opts)
+            b = andes.load(andes.get_case('ieee14/ieee14_full.xlsx'), default_config=True, no_output=True, config_option=opts)
+            a.PFlow.run()
+            b.PFlow.run()
+            ok1 = True
+            try:
+                for tf_ in (0.7, 1.3, 2.6):
+                    a.TDS.config.tf = tf_
+                    ok1 = a.TDS.run() and ok1
+                    b.TDS.config.tf = tf_
+                    b.TDS.run()
+            except Exception as e:      # noqa
+                return n, {'sparselib': lib, 'observed': 'two systems advanced in turns: %r' % (e,)}
+        if not (ok0 and ok1) or np.array(alone.dae.ts.t).shape != np.array(a.dae.ts.t).shape or \
+                max(float(np.max(np.abs(alone.dae.x - a.dae.x))), float(np.max(np.abs(alone.dae.y - a.dae.y)))) > 1e-9:
+            return n, {'sparselib': lib, 'observed': 'kundur_full advanced in three segments alone and in turns with a second system (ieee14_full): '
+                                                       'completed %r / %r, stored steps %d / %d, final states differ by %.3e' % (
+                           ok0, ok1, len(alone.dae.ts.t), len(a.dae.ts.t),
+                           max(float(np.max(np.abs(alone.dae.x - a.dae.x))), float(np.max(np.abs(alone.dae.y - a.dae.y)))) if alone.dae.x.shape == a.dae.x.shape else float('nan'))}
     # pattern change between two solves on one System
     for lib in ('klu', 'umfpack'):
         n += 1
